@@ -1,8 +1,85 @@
-/- Driver handler owned by property C11: `c11 <args…>` requests. -/
+/- Driver handler owned by property C11: `c11 <args…>` requests.
+
+   `c11 facts`                      → the generated facts, printed
+   `c11 run <op> <op> …`            → one history, one op per token; the answer has one
+                                       `|`-separated record per op (the observation after it):
+        `<valid 0/1>;<calls>;<live>;<faults>;<mapped>`
+      calls  = result of calling every live handle now, `,`-separated (`ok:<v>` / `uaf`)
+      live   = live instance counts `R<r>:<n>` `F<r>:<n>` `S<k>.<c>:<n>` (created − released)
+      faults = number of use-after-free / double-free events so far
+      mapped = `C<k>:<0/1>` per compiled version
+   ops:  b:<r>  rc:<r>  rf:<r>  c:<r>:<k>:<nconst>:<useConst>:<useClos>:<value>
+         g:<k>  ch:<i>  x:<i>  dh:<i>  dp:<k>  dr:<r>
+-/
 import Driver.Util
+import RotoV.Model.Lifetime
+import RotoV.Generated.Lifetime
 
 namespace Driver.C11
+open RotoV.Lifetime
 
-def handle (_args : List String) : String := "bad-op"
+def parseOp (tok : String) : Option Op :=
+  match tok.splitOn ":" with
+  | [op, a] =>
+    match a.toNat? with
+    | none => none
+    | some n =>
+      match op with
+      | "b" => some (.buildRuntime n)
+      | "rc" => some (.registerConst n)
+      | "rf" => some (.registerClosure n)
+      | "g" => some (.getHandle n)
+      | "ch" => some (.cloneHandle n)
+      | "x" => some (.call n)
+      | "dh" => some (.dropHandle n)
+      | "dp" => some (.dropPackage n)
+      | "dr" => some (.dropRuntime n)
+      | _ => none
+  | ["c", r, k, n, uc, uf, v] =>
+    match r.toNat?, k.toNat?, n.toNat?, uc.toNat?, uf.toNat?, v.toNat? with
+    | some r, some k, some n, some uc, some uf, some v =>
+      if uc ≤ 1 ∧ uf ≤ 1 then some (.compile r k n (uc == 1) (uf == 1) v) else none
+    | _, _, _, _, _, _ => none
+  | _ => none
+
+def showCall : CallRes → String
+  | .ok v => s!"ok:{v}"
+  | .uaf => "uaf"
+
+def sortNat (l : List Nat) : List Nat := (l.toArray.qsort (· < ·)).toList
+
+def liveOf (s : St) (created : Bool) (x : Res) : Nat :=
+  (if created then 1 else 0) - s.relCount x
+
+def observe (s : St) : String :=
+  let calls := (List.range s.hs.length).map fun i =>
+    match callHandle s i with
+    | some r => showCall r
+    | none => "?"
+  let rts := sortNat s.built
+  let ks := sortNat s.compiled
+  let live :=
+    (rts.filter (s.constEver.contains ·)).map (fun r => s!"R{r}:{liveOf s true (.regConst r)}")
+    ++ (rts.filter (s.closEver.contains ·)).map (fun r => s!"F{r}:{liveOf s true (.closure r)}")
+    ++ (ks.map fun k => (List.range (s.info k).nconst).map fun c =>
+          s!"S{k}.{c}:{liveOf s true (.scriptConst k c)}").flatten
+  let mapped := ks.map fun k => s!"C{k}:{if s.mapped k then 1 else 0}"
+  s!"{",".intercalate calls};{",".intercalate live};{s.faults.length};{",".intercalate mapped}"
+
+def runHist (F : Facts) : St → List Op → List String → List String
+  | _, [], acc => acc.reverse
+  | s, op :: rest, acc =>
+    let v := valid s op
+    let s' := stepV F s op
+    runHist F s' rest (s!"{if v then 1 else 0};{observe s'}" :: acc)
+
+def handle (args : List String) : String :=
+  match args with
+  | ["facts"] => toString (repr RotoV.Gen.Lifetime.facts) |>.replace "\n" " "
+  | "run" :: toks =>
+    match toks.mapM parseOp with
+    | none => "bad-op"
+    | some ops => "|".intercalate (runHist RotoV.Gen.Lifetime.facts {} ops [])
+  | _ => "bad-op"
 
 end Driver.C11
